@@ -214,3 +214,62 @@ func GuardScope(p *core.Prog, r *core.Report) {
 	r.Count("guard_branches", nGuards)
 	r.Floor("guard_branches", 5)
 }
+
+// KEY-EXEMPTION — a closed object (`additionalProperties: false`) forbids every member that is not described. A
+// test of the member's *name* against string constants that lets some names through before the "forbidden
+// property" error is an exemption the schema did not ask for: {"additionalProperties": false} accepts {"id": 1}.
+func KeyExemption(p *core.Prog, r *core.Report) {
+	const rule = "KEY-EXEMPTION"
+	f := p.Func("(*objectValidator).validateNoAdditionalProperties")
+	if f == nil {
+		r.Unk(rule, "anchor", "-", "(*objectValidator).validateNoAdditionalProperties not found")
+		return
+	}
+	// the instance keys: Extract #1 of a Next over a range of the method's map parameter
+	isKey := func(v ssa.Value) bool {
+		ex, ok := v.(*ssa.Extract)
+		if !ok || ex.Index != 1 {
+			return false
+		}
+		nx, ok := ex.Tuple.(*ssa.Next)
+		if !ok {
+			return false
+		}
+		rg, ok := nx.Iter.(*ssa.Range)
+		if !ok {
+			return false
+		}
+		_, isParam := rg.X.(*ssa.Parameter)
+		return isParam
+	}
+	var notAllowed *ssa.Call
+	core.EachInstr(f, func(i ssa.Instruction) {
+		if c, ok := i.(*ssa.Call); ok {
+			if g := core.StaticCallee(c); g != nil && g.Name() == "PropertyNotAllowed" {
+				notAllowed = c
+			}
+		}
+	})
+	if notAllowed == nil {
+		r.Unk(rule, "error", p.Pos(f.Pos()), "the forbidden-property error is not constructed here any more")
+		return
+	}
+	var names []string
+	for _, cd := range core.ControlConds(notAllowed.Block()) {
+		bo, ok := cd.Value.(*ssa.BinOp)
+		if !ok || (bo.Op != token.EQL && bo.Op != token.NEQ) {
+			continue
+		}
+		for _, pair := range [][2]ssa.Value{{bo.X, bo.Y}, {bo.Y, bo.X}} {
+			if k, isK := pair[1].(*ssa.Const); isK && isKey(pair[0]) && k.Value != nil {
+				names = append(names, k.Value.ExactString())
+			}
+		}
+	}
+	sort.Strings(names)
+	if len(names) > 0 {
+		r.Bad(rule, "validateNoAdditionalProperties:names", p.Pos(notAllowed.Pos()), "the forbidden-property error is not produced for the member names "+strings.Join(names, ", ")+", whatever the schema says: {\"additionalProperties\": false} accepts {\"id\": 1}; a Swagger document with a stray \"id\" or \"$schema\" member in any closed object (root, info, a parameter, a response …) is accepted although the Swagger 2.0 schema forbids it")
+	} else {
+		r.OK(rule, "validateNoAdditionalProperties:names", p.Pos(notAllowed.Pos()), "no member name is exempt from additionalProperties: false")
+	}
+}
